@@ -19,7 +19,8 @@ def one(meta: Path) -> tuple[str, dict]:
     res = {}
     if r.returncode != 0:
         return sid, {"error": r.stdout + r.stderr}
-    only = sys.argv[1].split(",") if len(sys.argv) > 1 and sys.argv[1] != "all" else ALL
+    arg = sys.argv[1] if len(sys.argv) > 1 else "all"
+    only = [d.parent.name] if arg == "own" else (ALL if arg == "all" else arg.split(","))
     for q in only:
         env = dict(os.environ, VERIF_REPO=str(dst), VERIF_EVIDENCE_DIR=str(dst) + "_ev")
         p = subprocess.run([str(VERIF / "check"), q], capture_output=True, text=True, env=env)
